@@ -21,12 +21,23 @@ func genExpandScenario(prop string, r *sim.RNG, tier string, idx int) *Scenario 
 	} else if idx < gen.SmallCount+gen.ChainCount {
 		sc.World = gen.Chain(idx - gen.SmallCount)
 		sc.Note = fmt.Sprintf("systematic element chain %d", idx-gen.SmallCount)
+	} else if idx < gen.SmallCount+gen.ChainCount+gen.TwinsCount {
+		sc.World = gen.Twins(idx - gen.SmallCount - gen.ChainCount)
+		sc.Note = fmt.Sprintf("twin documents %d", idx-gen.SmallCount-gen.ChainCount)
 	} else {
 		cfg := gen.DrawCfg(r)
 		cfg.IllFounded = false
 		cfg.IDs = 0
 		sc.Cfg = &cfg
 		sc.World = gen.Generate(r, cfg)
+		if r.Intn(7) == 0 {
+			// the same world served from an http host with an explicit port (other generated
+			// documents live on the same host name with another port, or on other hosts)
+			sc.World = relocateHTTP(sc.World)
+			if strings.HasPrefix(sc.World.Root, "http") {
+				sc.Note = "root on http://h.test:8080"
+			}
+		}
 	}
 	sc.Opts.Absolute = r.Bool(0.4)
 	n := 3
